@@ -165,7 +165,11 @@ def binop(rt, interp, op, a, b, node=None):
             return lift_int(x * (1 << b))
         if opn == "RShift" and isinstance(b, int):
             return lift_int(x / (1 << b))
+        if opn in ("BitAnd", "BitOr") and isinstance(a, Sym) and isinstance(b, Sym) and z3.eq(x, y):
+            return a                                            # x & x == x | x == x
         if opn == "BitAnd":
+            if isinstance(a, Sym) and isinstance(b, Sym) and (z3.is_app_of(y, z3.Z3_OP_ITE) or z3.is_app_of(x, z3.Z3_OP_ITE)):
+                pass
             for m, o in ((a, y), (b, x)):
                 if isinstance(m, int) and not isinstance(m, bool):
                     if m >= 0 and (m + 1) & m == 0:            # mask 2^k - 1
